@@ -2739,8 +2739,8 @@ impl LineBuf {
 							pos.set(ch_pos);
 						}
 						Direction::Backward => {
-							let before = pos.ret_sub(1);
-							let mut indices_iter = (0..before).rev();
+							// Everything before the cursor, the character next to it included
+							let mut indices_iter = (0..pos.get()).rev();
 
 							let Some(ch_pos) = indices_iter.find(|i| {
 								self.grapheme_at(*i) == Some(ch_str)
